@@ -169,6 +169,12 @@ def h5_digest(path, skip=('metadata',)):
                 if name.split('/')[-1] in skip:
                     return
                 v = obj[()]
+                if name.split('/')[-1] == 'taxonomy_tree' and \
+                        isinstance(v, bytes):
+                    # the tree's own 'metadata' holds a timestamp
+                    t = json.loads(v.decode('utf-8'))
+                    t.pop('metadata', None)
+                    v = json.dumps(t, sort_keys=True).encode('utf-8')
                 if isinstance(v, np.ndarray):
                     out[name] = (str(v.dtype), v.shape, v.tobytes())
                 else:
